@@ -176,6 +176,19 @@ def _run_simfs(ch, cfg, hist, nextra):
                     raise OSError(_errno.EIO if kind != "write" else _errno.ENOSPC, "injected I/O error")
                 iofault["seen"] += 1
         fs.fault_hook = hook
+    # a short write(2): the kernel accepts only part of one buffer (nearly full disk, quota, interrupted system call on a
+    # network file system).  Not an error: whoever writes must look at the count and write the rest - a set that returns
+    # afterwards promises its whole value as usual
+    if ch.draw(6, "shortwrite") == 0:
+        sw = {"at": ch.draw(3, "sw.at"), "seen": 0, "frac": 1 + ch.draw(7, "sw.frac")}
+
+        def short_hook(path, n):
+            sw["seen"] += 1
+            if sw["seen"] - 1 == sw["at"]:
+                stats["fs_fault_short_write"] += 1
+                return max(1, n * sw["frac"] // 8)
+            return None
+        fs.short_write_hook = short_hook
     # between two sets the application may drop its store object and open a new one on the same directory
     # (nothing is cached then: the next get of an existing key is a real load)
     reopen_before = {i for i in range(1, len(hist)) if ch.draw(4, "reopen") == 0}
